@@ -165,8 +165,8 @@ def _cls(t: str, body: str) -> str:
     return "".join(f"namespace {n} {{ " for n in ns) + f"struct {name} {body};" + " }" * len(ns) + "\n"
 
 
-def edm_header(backend: str, types: List[Tuple[str, Optional[str]]]) -> str:
-    """`types`: (container type, element type or None for a singleton), as DECLARED by the tables /
+def edm_header(backend: str, types) -> str:
+    """`types`: (container type, element type or None for a singleton, elements are pointers), as DECLARED by the tables /
     the metadata (not as the generated code uses them)."""
     out = ["#pragma once\n#include <vector>\n#include <cstdio>\n"]
     done = set()
@@ -174,7 +174,9 @@ def edm_header(backend: str, types: List[Tuple[str, Optional[str]]]) -> str:
     def methods(t: str) -> str:
         return " ".join(f'double {m}() const {{ std::printf("CALL|{t}|{m}\\n"); return 1.0; }}' for m in METHODS)
 
-    for cont, elem in types:
+    for t3 in types:
+        cont, elem = t3[0], t3[1]
+        ptr = t3[2] if len(t3) > 2 else backend == "atlas"
         if elem is not None and elem not in done:
             done.add(elem)
             out.append(_cls(elem, "{ " + methods(elem) + " }"))
@@ -183,7 +185,7 @@ def edm_header(backend: str, types: List[Tuple[str, Optional[str]]]) -> str:
         done.add(cont)
         if elem is None:
             out.append(_cls(cont, "{ " + methods(cont) + f' static const char* mock_name() {{ return "{cont}"; }} static {cont} mock_make() {{ return {cont}(); }} }}'))
-        elif backend == "atlas":
+        elif ptr:
             out.append(
                 _cls(cont, f': std::vector<const {elem}*> {{ static const char* mock_name() {{ return "{cont}"; }} static {cont} mock_make() {{ static {elem} a, b; {cont} c; c.push_back(&a); c.push_back(&b); return c; }} }}')
             )
